@@ -526,6 +526,22 @@ func (s *sys) msgUpdate(ctx sdk.Context, hdr exported.Header, signer world.Accou
 	if e := msg.ValidateBasic(); e != nil {
 		return e
 	}
+	// the message travels as transaction bytes: what the message server sees is what the application's codec decodes
+	{
+		cdc := s.f.h.C.App.AppCodec()
+		bz, e := cdc.Marshal(msg)
+		if e != nil {
+			return fmt.Errorf("message does not encode: %w", e)
+		}
+		var decoded clienttypes.MsgUpdateClient
+		if e := cdc.Unmarshal(bz, &decoded); e != nil {
+			return fmt.Errorf("message does not decode: %w", e)
+		}
+		if e := decoded.UnpackInterfaces(s.f.h.C.App.InterfaceRegistry()); e != nil {
+			return fmt.Errorf("message does not decode: %w", e)
+		}
+		msg = &decoded
+	}
 	cctx, write := c07.ForkW(ctx, ctx.BlockTime())
 	defer func() {
 		if r := recover(); r != nil {
